@@ -67,9 +67,9 @@ STATIC = {
 THOROUGH_MEASURED = {
     # last measured runs of the thorough tier (commit, what, wall); sizes have grown since for most (see text)
     "C01": "273M evaluations / 82 min on 10 cores, other work running (18866c1)", "C02": "244M / 47 min on 10 cores, other work running (18866c1)", "C03": "196M / 26 min on 10 cores (e86f708)", "C04": "139M / 19 min on 10 cores (18866c1)",
-    "C05": "52M / 4.4 min on 10 cores (e86f708)", "C06": "not re-measured (about 20-40 min)", "C07": "not re-measured (about 20-40 min)", "C08": "all inputs, 4 modes everywhere / 14 min (b506832, before combinations)",
+    "C05": "52M / 4.4 min on 10 cores (e86f708)", "C06": "not re-measured (about 20-40 min)", "C07": "241M evaluations / 34 min on 16 cores (final commit)", "C08": "all inputs, 4 modes everywhere / 14 min (b506832, before combinations)",
     "C09": "depth 14/14/11 / 12 min (b506832, before atomic blocks)", "C10": "1.95M texts / 69 s (e86f708)", "C11": "N=4, K=4, replacements+insertions / 16 min (b506832)", "C12": "~160 expressions + all property rules / 20 min (b506832)",
-    "C13": "not re-measured (about 20-40 min)", "C14": "5.3M / 10 s (e86f708)", "C15": "history depth 4, 2 preemptions on the tiny harness / 8 min (b506832, one pool)", "C16": "not re-measured (about 20-40 min)",
+    "C13": "started on the final commit, stopped unfinished after 47 min when the session ended (no violation reported up to then)", "C14": "5.3M / 10 s (e86f708)", "C15": "history depth 4, 2 preemptions on the tiny harness / 8 min (b506832, one pool)", "C16": "not re-measured (about 20-40 min)",
     "C17": "larger subsets, 7 tokens / 7.8 min on 10 cores (e86f708)", "C18": "37.6M streams, 8 tokens / 26 min on 10 cores (e86f708)",
 }
 
